@@ -152,9 +152,16 @@ def _draw_form(case, kind, quantity='all', layouts=True):
             f['centre_unit'] = other if (mixed and rng.random() < 0.6) else base
             f['coord_unit'] = other if (f['pform'] == 'q_coords_other' or (mixed and rng.random() < 0.5)) else base
     if layouts and rng.random() < 0.45:
-        f['cform'] = ['fortran', 'strided', 'bigendian', 'float32', 'int', 'list', 'offset'][int(rng.integers(0, 7))]
+        f['cform'] = ['fortran', 'strided', 'bigendian', 'float32', 'int', 'list', 'offset', 'uint8', 'uint16', 'int8',
+                      'int16', 'uint64', 'float16'][int(rng.integers(0, 13))]
+    # second list (x): a model with a history - evaluated elsewhere, then copied - instead of a fresh one
+    f['prov'] = bool(rng.random() < 0.2)
+    if f['prov']:
+        case.note('axis2_provenance_model_evaluated_and_copied')
     case.note('axis_callform_' + f['pform'])
     case.note('axis_layout_' + f['cform'])
+    if f['cform'] in ('uint8', 'uint16', 'int8', 'int16', 'uint64', 'float16', 'float32'):
+        case.note('axis2_coordinate_dtype_' + f['cform'])
     return f
 
 
@@ -187,6 +194,14 @@ class _M:
             else:
                 kw[k] = v
         self.model = getattr(P, kind)(**kw)
+        if f.get('prov'):
+            m0 = self.model
+            xs = np.linspace(-3.0, 3.0, 7)
+            if f['pform'].startswith('q_'):
+                xs = xs * u.Unit(f['coord_unit'])
+            _ = m0(xs, xs)
+            self.model = m0.copy()
+            _ = self.model(xs, xs)
         self.unit_checks = []
 
     def __getattr__(self, name):
@@ -260,6 +275,11 @@ def _layout(a, cform):
         return b if np.array_equal(b.astype(float), a) else a
     if cform == 'list':
         return a.tolist() if a.ndim == 1 and a.size <= 400 else a
+    if cform in ('uint8', 'uint16', 'int8', 'int16', 'uint64', 'float16'):
+        # narrow / unsigned coordinate dtypes, only where they hold the numbers exactly
+        with np.errstate(all='ignore'):
+            b = a.astype(cform)
+        return b if np.array_equal(b.astype(float), a) else a
     return a
 
 
@@ -498,11 +518,55 @@ def _case_shape(case):
     m.set_flux(F * k)
     a3 = np.asarray(m(p['x_0'] + d, p['y_0'] + e), float)
     case.close(a3, a2, 'flux_setter_equals_constructor', mech=mech)
+    _check_bbox(case, m, kind, p, mech)
     # translation covariance by an exactly representable shift
     sh = float(rng.integers(-640, 641)) / 64.0
     m2 = _make(kind, dict(p, x_0=p['x_0'] + sh, y_0=p['y_0'] - sh), form)
     a4 = np.asarray(m2(p['x_0'] + sh + d, p['y_0'] - sh + e), float)
     case.close(a4, a, 'translation_covariance', rtol=1e-13, atol=1e-300, mech=mech)
+
+
+def _check_bbox(case, m, kind, p, mech):
+    """model.bounding_box against its documented extent (bbox_factor x sigma for the Gaussians - the box tangent to
+    the rotated bbox_factor-sigma ellipse -, bbox_factor x FWHM for Moffat and Airy) and against the model itself:
+    on and outside the box a Gaussian PSF is below exp(-bbox_factor**2 / 2) of its peak."""
+    rng = case.rng
+    sx, sy = _sigmas(kind, p)
+    factor = None if rng.random() < 0.6 else float(rng.uniform(2.0, 9.0))
+    if factor is not None:
+        m.model.bbox_factor = factor
+    f = factor if factor is not None else (10.0 if kind in ('MoffatPSF', 'AiryDiskPSF') else 5.5)
+    if kind == 'MoffatPSF':
+        fw = 2.0 * p['alpha'] * np.sqrt(2 ** (1.0 / p['beta']) - 1)
+        dx = dy = f * fw
+    elif kind == 'AiryDiskPSF':
+        dx = dy = f * m.length(m.fwhm)
+    else:
+        t = np.deg2rad(p.get('theta', 0.0))
+        a, b = f * sx, f * sy
+        dx = np.sqrt((a * np.cos(t)) ** 2 + (b * np.sin(t)) ** 2)
+        dy = np.sqrt((a * np.sin(t)) ** 2 + (b * np.cos(t)) ** 2)
+    (ylo, yhi), (xlo, xhi) = m.model.bounding_box.bounding_box()
+    got = [m.length(v) for v in (xlo, xhi, ylo, yhi)]
+    exp = [p['x_0'] - dx, p['x_0'] + dx, p['y_0'] - dy, p['y_0'] + dy]
+    scale = max(dx, dy)
+    theta_float = bool('theta' in p and p['theta'] != 0.0 and not (
+        m.form['pform'].startswith('q_') and m.form.get('theta_unit') is not None))
+    mech = dict(mech, theta_float_nonzero=theta_float)
+    case.close(got, exp, 'bounding_box_is_documented_extent', rtol=1e-12, atol=1e-12 * scale + 4e-16 * max(
+        abs(p['x_0']), abs(p['y_0'])), mech=dict(mech, factor_set=factor is not None))
+    case.note('axis2_bounding_box_judged')
+    if kind in ('GaussianPSF', 'CircularGaussianPSF'):
+        # points on the boundary of the library's own box
+        peak = abs(float(np.asarray(m(p['x_0'], p['y_0']))))
+        u_ = rng.uniform(0, 1, 40)
+        gx0, gx1, gy0, gy1 = got
+        bx = np.concatenate([gx0 + (gx1 - gx0) * u_, np.full(40, gx1), np.full(40, gx0)])
+        by = np.concatenate([np.where(rng.random(40) < 0.5, gy1, gy0), gy0 + (gy1 - gy0) * u_, gy0 + (gy1 - gy0) * u_])
+        vals = np.abs(np.asarray(m(bx, by), float))
+        lim = peak * np.exp(-0.5 * f * f)
+        case.check(bool(np.all(vals <= lim * (1 + 1e-6) + 1e-300)), 'model_negligible_outside_bounding_box',
+                   mech, worst=float(np.max(vals) / max(lim, 1e-300)))
 
 
 def _case_consistency(case):
@@ -639,13 +703,27 @@ def _arr_form(rng, a, note=None):
     if k < 0.5:
         out = a
     else:
-        form = ['fortran', 'strided', 'offset', 'bigendian', 'float32', 'int', 'transposed_view'][int(rng.integers(0, 7))]
+        form = ['fortran', 'strided', 'offset', 'bigendian', 'float32', 'int', 'transposed_view', 'uint8', 'uint16',
+                'int8', 'int16', 'uint64', 'float16'][int(rng.integers(0, 13))]
         if form == 'float32':
             out = a.astype(np.float32)
             a = out.astype(np.float64)
         elif form == 'int':
             sc = 1000.0 / max(float(np.max(np.abs(a))), 1e-300)
             out = np.round(a * sc).astype(np.int64)
+            a = out.astype(np.float64)
+        elif form in ('uint8', 'uint16', 'int8', 'int16', 'uint64', 'float16'):
+            # narrow / unsigned dtypes up to their limits (uint64 beyond 2**53): judged on the values they hold
+            if form == 'float16':
+                out = (a / max(float(np.max(np.abs(a))), 1e-300) * 100.0).astype(np.float16)
+            else:
+                info = np.iinfo(form)
+                top = float(min(info.max, 2 ** 62))
+                span = float(np.max(a) - np.min(a)) or 1.0
+                if info.min < 0:
+                    out = np.round((a - np.min(a)) / span * 2 * top * 0.99 - top * 0.99).astype(form)
+                else:
+                    out = np.round((a - np.min(a)) / span * top * 0.99).astype(form)
             a = out.astype(np.float64)
         elif form == 'fortran':
             out = np.asfortranarray(a)
@@ -663,6 +741,8 @@ def _arr_form(rng, a, note=None):
             out = big[(slice(2, -1),) * a.ndim]
     if note is not None:
         note('axis_data_layout_' + form)
+        if form in ('uint8', 'uint16', 'int8', 'int16', 'uint64', 'float16', 'float32'):
+            note('axis2_data_dtype_' + form)
     return np.ascontiguousarray(a, dtype=np.float64), out
 
 
@@ -724,6 +804,11 @@ def _gen_imagepsf_cfg(rng, note=None):
         if note is not None:
             note('axis_position_far_from_origin')
     flux = _flux(rng) * (1 if rng.random() < 0.9 else -1)
+    if note is not None:
+        osy, osx = _os_pair(os_)
+        if osy != osx:
+            note('axis2_unequal_oversampling')
+        note('axis2_array_parity_' + ('even' if ny % 2 == 0 else 'odd') + '_' + ('even' if nx % 2 == 0 else 'odd'))
     return dict(data=data, data_in=data_in, oversampling=os_, origin=origin, fill_value=fill, x_0=x0, y_0=y0,
                 flux=flux)
 
@@ -1078,6 +1163,10 @@ def _case_gridded(case, degenerate=False):
     m = _build_grid(cfg, flux=flux, via_helper=via_helper)
     case.params['via_grid_from_epsfs'] = via_helper
     case.note('axis_data_layout_' + cfg['cube_layout'])
+    if len(set(_os_pair(cfg['oversampling']))) > 1:
+        case.note('axis2_unequal_oversampling')
+    case.note('axis2_array_parity_' + ('even' if cfg['shape'][0] % 2 == 0 else 'odd') + '_'
+              + ('even' if cfg['shape'][1] % 2 == 0 else 'odd'))
     case.note('axis_grid_shape_' + ('wide' if len(cfg['xg']) >= len(cfg['yg']) + 2 else
                                    'tall' if len(cfg['yg']) >= len(cfg['xg']) + 2 else 'squarish'))
     mech0 = {'model': 'GriddedPSFModel', 'degenerate_grid': bool(degenerate)}
